@@ -24,4 +24,27 @@ PROPS = {
         'assumptions': ['each *Subscription value is registered once (fresh identities; a resolver returning the same *Subscription twice is outside the claim)',
                         'subscriber callbacks do not re-enter the root', 'single goroutine (C20 covers concurrency)'],
     },
+    'C20': {
+        'level': 'proof',
+        'correspondence': 'Sched.exec == real registry under the same block-level schedule (verif yield hooks)',
+        'rule': ('(threads, schedule): threads are concurrent calls subscribe/publish/unsubscribe; a schedule is a complete interleaving of their '
+                 'critical sections (subscribe 1, unsubscribe 1, publish 2), forced on the real code through the verif yield hooks placed before every '
+                 'subLock.Lock(); three named scenarios (two publishers failing on the same subscriber while unsubscribe races; etc.) are interleaved '
+                 'exhaustively, random mixes of 2-4 (thorough 2-5) calls get up to 40 (400) sampled interleavings each; the observed block log is compared with '
+                 'the extracted model run of the same schedule and checked with the extracted once/visible/trace_ok predicates. '
+                 'non-trivial = has a subscribe and a publish and (a publish whose two sections are separated by another call, or an unsubscribe, or a failing '
+                 'subscriber); distinct = by input text. Supporting legs: lock-discipline scan (every access to root.subscriptions lies under subLock) and a '
+                 'free-running stress under the Go race detector with log checks.'),
+        'explanation': ('Theorems C20_safe_cleanup_once_no_late_delivery, C20_once, C20_visible, C20_no_deadlock, C20_checks_hold (Coq, every schedule, any number '
+                        'of threads) about the interleaving model Sched.v built on the registry model; tied to root.go by forcing the same schedules on the real code. '
+                        'PARTIAL: the theorem assumes each critical section is atomic and the mutex is a correct lock; memory-level data races and the Go scheduler '
+                        'are outside the model and are looked for by the race-detector leg and the lock-discipline scan.'),
+        'trusted_base': COMMON_TB + ['modelled rather than verified: root.go subscribe/Unsubscribe/AddEvent as sequences of critical sections under subLock; sync.Mutex assumed correct',
+                                     'verif yield hooks (add-only, build tag verif) and the harness scheduler that runs one goroutine at a time',
+                                     'Go race detector (-race) and cmd/lockscan for the atomicity assumption'],
+        'assumptions': ['critical sections under root.subLock are atomic (checked syntactically by lockscan and dynamically by -race stress, not proved)',
+                        'subscriber callbacks do not re-enter the root (would self-deadlock on the non-reentrant mutex)',
+                        'each *Subscription value is registered once'],
+        'legs': [('lockscan', 'subLock', 'subscriptions'), ('stress', 'stress20', 6, 120)],
+    },
 }
